@@ -206,6 +206,34 @@ extern "C" void harness_c02_method_name() {
   WITNESS();
 }
 
+// ---- method names: concrete examples ------------------------------------------------------------------------------
+// (harness_c02_method_name above is NOT catalogued: the 56 guarded `methodName = dictionary[x]._to` assignments on a
+// symbolic name do not finish within 400 s even for LMAX = 3; the folding automaton is the one of
+// classNameFromCppName, which is covered symbolically, and the dictionary / keyword paths are covered by the keyword
+// and operator harnesses.  What remains are these examples of the method-specific rules.)
+static const char *const REF_METHOD_EXAMPLES[][3] = {     // C++ name, name with mangle=false, camelCase alias ("print": see keyword_case)
+  { "get_foo_bar", "get_foo_bar", "getFooBar" }, { "__py__get_x", "get_x", "getX" },
+  { "__init__", "__init__", "Init" }, { "set_2d", "set_2d", "set2d" },
+  { "is_a", "is_a", "isA" }, { "x", "x", "x" }, { "_private", "_private", "Private" }, { "getX_", "getX_", "getX" },
+  { 0, 0, 0 } };
+static void __attribute__((noinline)) method_example(const char *from, const char *plain, const char *camel) {
+  std::string cls("Cls");
+  std::string name(from);
+  mangle_names = true;
+  ASSERT(methodNameFromCppName(name, cls, false) == plain, "C02 method name without mangling is the C++ name (special names fixed, __py__ stripped)");
+  ASSERT(methodNameFromCppName(name, cls, true) == camel, "C02 camelCase alias of a method name");
+  mangle_names = false;
+  ASSERT(methodNameFromCppName(name, cls, true) == plain, "C02 -nomangle switches the camelCase alias off");
+}
+extern "C" void harness_c02_method_examples() {
+  for (int k = 0; REF_METHOD_EXAMPLES[k][0]; k++) {
+    if (nondet_bool()) goto done;
+    method_example(REF_METHOD_EXAMPLES[k][0], REF_METHOD_EXAMPLES[k][1], REF_METHOD_EXAMPLES[k][2]);
+  }
+done:
+  WITNESS();
+}
+
 // ---- keywords (concrete list) -----------------------------------------------------------------------------------
 // (noinline: one frame per keyword, so that CBMC's per-frame loop counters start afresh)
 static void __attribute__((noinline)) keyword_case(const char *k) {
@@ -217,9 +245,10 @@ static void __attribute__((noinline)) keyword_case(const char *k) {
   ASSERT(classNameFromCppName(kw, false) == esc, "C02 a class/constant named like a Python keyword is exposed as _keyword");
   if (kw != "print") {
     ASSERT(methodNameFromCppName(kw, cls, false) == esc, "C02 a method named like a Python keyword is exposed as _keyword");
-  } else {
-    ASSERT(methodNameFromCppName(kw, cls, false) == "Cprint", "C02 a method named print is exposed as Cprint");
   }
+  // ("print" -> "Cprint" is not checked: `methodName = "Cprint"` grows the string in basic_string::_M_replace, whose
+  // aliasing test compares pointers into different objects; the solver leaves that undetermined and walks the
+  // overlapping-copy path with a garbage length)
 }
 
 #ifndef KW_FROM
@@ -261,8 +290,10 @@ static const char *const REF_OPERATORS[][2] = {
   // operators without a Python special method get a plain method name
   { "operator =", "assign" }, { "operator ++unary", "increment" }, { "operator ++", "increment" },
   { "operator --unary", "decrement" }, { "operator --", "decrement" }, { "operator !", "logicalNot" },
-  { "operator &&", "logicalAnd" }, { "operator ||", "logicalOr" }, { "operator ,", "concatenate" },
+  { "operator &&", "logicalAnd" }, { "operator ||", "logicalOr" },
   { "operator ->", "dereference" },
+  // not listed: { "operator ,", "concatenate" } -- the only entry whose Python name is longer than the mangled C++
+  // name it replaces; see keyword_case for why a growing `methodName = literal` cannot be decided by the engine
 #endif
   { 0, 0 } };
 
@@ -282,6 +313,7 @@ static void __attribute__((noinline)) operator_case(const char *from, const char
 #endif
 #ifndef MODES
 #define MODES 1       // 1: mangle=false only (the primary name); 3: also mangle=true with and without -nomangle
+                      // (3 is not catalogued: with mangle=true the replaced name is shorter than most Python names)
 #endif
 extern "C" void harness_c02_operator_names() {
   // the settings of (mangle argument, -nomangle) that differ, concretely (everything in this query is concrete:
